@@ -136,6 +136,10 @@ def pi1_one_pass_per_action(ctx, rep):
         for k, s in P.ev.get(lab, []):
             cfg = ctx.prog.cfg(s.body)
             loops = [h for h, blks in cfg.loops().items() if s.bb in blks]
+            fe = for_each_use(ctx, s)
+            if fe is not None and not loops:
+                # `.iter().for_each(|x| ..)`: the combinator is the one loop
+                loops = ["for_each"] + [h for h, blks in ctx.prog.cfg(fe.body).loops().items() if fe.bb in blks]
             rep.check(len(loops) == 1, R, "single-loop:%s:%s" % (lab, short(s.body.path)), s.where,
                       "%s sits in exactly one loop of its function" % lab, "%s sits in %d nested loops" % (lab, len(loops)))
 
@@ -211,7 +215,17 @@ def pi3_full_forward_iteration(ctx, rep, which=("REDUCE", "HOOK:before_reduce", 
             lp = _loop_of(cfg, s.bb)
             key = "%s:%s" % (lab, short(body.path))
             if lp is None:
-                rep.bad(R, "in-loop:" + key, s.where, "%s is not inside a loop over its collection" % lab)
+                fld0 = field_for.get(lab, A.f_middlewares)
+
+                def coll(outer, src, fe, fld0=fld0, key=key, lab=lab):
+                    base = strip_wrap(src)
+                    if base[0] == "call":
+                        base = strip_wrap(unclone_all(unwrap_all(Interp(ctx.prog).expand(src))))
+                    rep.check(base[0] == "field" and base[2] == fld0, R, "collection-read-in-pass:" + key, fe.where,
+                              "collection is the store's `%s` read under its lock inside the pass (%s)" % (fld0, term_str(src)),
+                              "collection is %s, not the store's `%s` read inside the pass" % (term_str(src), fld0))
+                if not for_each_iteration(ctx, rep, R, s, lab, key, coll):
+                    rep.bad(R, "in-loop:" + key, s.where, "%s is not inside a loop over its collection" % lab)
                 continue
             h, blks = lp
             # receiver provenance: (next() as Some).0 of a slice iterator
@@ -270,6 +284,49 @@ def pi3_full_forward_iteration(ctx, rep, which=("REDUCE", "HOOK:before_reduce", 
             # reaching a latch from the header without the callback (within the loop) means skipping
             skip = {l for l in skip if l in blks and _reach_within(cfg, h, l, blks, avoid=s.bb)}
             rep.check(not skip, R, "no-skip:" + key, s.where, "every iteration calls %s" % lab, "an iteration can skip %s (filtering)" % lab)
+
+
+def for_each_use(ctx, s):
+    """the callback site sits in a closure whose only use is `<slice iterator>.for_each(closure)`
+    in its creating body: returns that for_each call site, else None"""
+    b = s.body
+    if not b.is_closure():
+        return None
+    uses = ctx.prog.closure_use(b)
+    if len(uses) != 1 or uses[0][0].ck != "std::iter::Iterator::for_each":
+        return None
+    return uses[0][0]
+
+
+def for_each_iteration(ctx, rep, R, s, lab, key, collection_check=None):
+    """PI3 for the `collection.iter().for_each(|x| x.callback(..))` idiom: plain forward slice
+    iterator over the whole collection, the item is the callback's receiver, exactly one callback
+    on every path through the closure; for_each itself cannot stop early"""
+    fe = for_each_use(ctx, s)
+    if fe is None:
+        return False
+    body = s.body
+    outer = fe.body
+    rep.note_fn(outer.path)
+    obp = ctx.prog.bp(outer)
+    it_ty = fe.fn["args"][0] if fe.fn.get("args") else "?"
+    rep.check(it_ty.startswith("std::slice::Iter<"), R, "plain-forward-iterator:" + key, fe.where, "for_each over %s" % it_ty, "for_each over %s (not a plain forward slice iterator: order/coverage changed)" % it_ty)
+    it_t = obp.arg_term(fe.bb, 0)
+    iters = [st for st in subterms(it_t) if st[0] == "call"]
+    good_src = len(iters) == 1 and iters[0][2] == "core::slice::iter"
+    rep.check(good_src, R, "iterator-over-whole-collection:" + key, fe.where, "iterator is <collection>.iter() (%s)" % term_str(it_t), "iterator is %s, not a plain .iter() of the collection" % term_str(it_t))
+    if good_src and collection_check is not None:
+        collection_check(outer, obp.arg_term(iters[0][1][1], 0), fe)
+    recv = strip_wrap(ctx.prog.bp(body).arg_term(s.bb, 0))
+    rep.check(recv == ("param", 2), R, "receiver-from-iterator:" + key, s.where, "the callback's receiver is for_each's item", "callback receiver %s is not the item handed in by for_each" % term_str(recv))
+    pe = ctx.paths(body)
+    rep.stats["paths"] += len(pe.paths)
+    for p in pe.paths:
+        if p.end != "return":
+            continue
+        n = len([e for e in p.calls() if e.site is not None and e.site.bb == s.bb and e.site.body.path == body.path])
+        rep.check(n == 1, R, "once-per-iteration:" + key, s.where, "one %s per item on path [%s]" % (lab, p.describe()), "%d %s call(s) for one item on path [%s]" % (n, lab, p.describe()))
+    return True
 
 
 def _reach_within(cfg, a, b, blks, avoid):
